@@ -66,6 +66,18 @@ def r1(ctx):
     for st in body:
         if isinstance(st, ast.Assign):
             continue            # locals feeding the check (e.g. the concatenated list)
+        if isinstance(st, ast.If) and st.body and isinstance(st.body[-1], ast.Raise) and isinstance(st.test, ast.Call) and U(st.test.func) == "any" and len(st.test.args) == 1 \
+                and isinstance(st.test.args[0], (ast.GeneratorExp, ast.ListComp)) and len(st.test.args[0].generators) == 1 and not st.test.args[0].generators[0].ifs:
+            # if any(<plate has more than one sample> for plate in batch + candidates): raise
+            g_ = st.test.args[0].generators[0]
+            it = U(inline(g_.iter, env)).replace(" ", "")
+            pv = U(g_.target)
+            over_all = it in (f"{batch}+{cand}", f"{cand}+{batch}", f"itertools.chain({batch},{cand})", f"chain({batch},{cand})", f"[*{batch},*{cand}]", f"[*{cand},*{batch}]")
+            want = [N.b(parse_expr(f"{pv}.n_unique_samples != 1")), N.b(parse_expr(f"len({pv}.unique_sample_ids) != 1")), N.b(parse_expr(f"{pv}.n_unique_samples > 1"), integer=True)]
+            ok = over_all and N.b(st.test.args[0].elt) in want
+            if not over_all:
+                why = f"the refusal runs over `{it}`, not batch + candidate plates"
+            break
         if isinstance(st, ast.For):
             it = U(inline(st.iter, env)).replace(" ", "")
             pv = U(st.target)
@@ -197,6 +209,14 @@ def r3(ctx):
             t = threshold_comp(v.args[0], selc)
             if t:
                 chosen = (k,) + t
+    count_form = False
+    if insuff is None:
+        # no explicit set: the new-sample arm may test the remaining count directly (`not remaining[sample] < k`), which is the same
+        # predicate for every candidate's sample (each has at least one remaining plate, so it is a key of the counter)
+        txt = " ".join(U(p_[1]) for p_ in ps)
+        if f"{remc}[" in txt:
+            count_form = True
+            insuff = (f"<{remc}[s] < k>", True, f"{remc}[sample] < self.k")
     if insuff is None:
         raise AnalysisError(f"{f.site()}: the set of samples with insufficient remaining plates (a selection over {remc}.items()) was not found in a recognised form")
     if chosen is None:
@@ -241,7 +261,18 @@ def r3(ctx):
               "while a sample is in progress only plates with that sample id are returned",
               "the in-progress arm does not return exactly the candidate plates whose sample equals the sample in progress")
     c_new, pv2 = arm_condition(arm_new)
-    want_new = None if pv2 is None else frozenset([N.b(parse_expr(f"{pv2}.sample_ids[0] not in {insuff[0]}")), N.b(parse_expr(f"{pv2}.sample_ids[0] not in {selc}"))])
+    if count_form and pv2 is not None:
+        want_new = frozenset([N.b(parse_expr(f"not ({remc}[{pv2}.sample_ids[0]] < self.k)"), integer=True), N.b(parse_expr(f"{pv2}.sample_ids[0] not in {selc}"))])
+        # the arm's own tests in integer normal form too
+        ret2, penv2 = arm_new
+        g2 = _single_gen(ret2) if isinstance(ret2, ast.ListComp) else None
+        if g2 is not None:
+            tests = []
+            for t in g2[2]:
+                tests += _flatten_membership(t, penv2)
+            c_new = frozenset(N.b(t, integer=True) if not (isinstance(t, ast.Compare) and isinstance(t.ops[0], (ast.In, ast.NotIn))) else N.b(t) for t in tests)
+    else:
+        want_new = None if pv2 is None else frozenset([N.b(parse_expr(f"{pv2}.sample_ids[0] not in {insuff[0]}")), N.b(parse_expr(f"{pv2}.sample_ids[0] not in {selc}"))])
     ctx.check("R3", f"{f.site()}::new-sample-arm", c_new is not None and c_new == want_new,
               "otherwise only samples that are neither insufficient nor already in the batch are returned",
               "the new-sample arm does not require `sample not in insufficient` and `sample not already selected`")
